@@ -312,11 +312,17 @@ impl<T: Tier> Cfg<T> for M4C {
         shear.z.x = T::q(3, 2);
         let mut sing = Matrix4::from_nonuniform_scale(T::int(2), T::int(0), T::q(-1, 2));
         sing.w = mk_v4([d[1][0], d[1][1], d[1][2], T::one()]);
+        // a projective matrix (bottom row not 0 0 0 1): points go through the homogeneous divide
+        let mut proj = Matrix4::<T>::identity();
+        proj.z.w = T::q(1, 4);
+        proj.x.w = T::q(-1, 8);
+        proj.w.w = T::int(2);
         vec![
             Matrix4::from_translation(mk_v3(d[0])) * rot * Matrix4::from_scale(T::q(-3, 2)),
             shear,
             Matrix4::from_translation(mk_v3(d[2])) * Matrix4::from_nonuniform_scale(T::int(2), T::int(-1), T::q(1, 2)),
             sing,
+            proj,
         ]
     }
     fn comps(t: &Self::Tr) -> Vec<T> {
@@ -468,9 +474,18 @@ impl<T: Tier> Cfg<T> for M3P2 {
     }
 }
 
+/// image of a point (w = 1, with the homogeneous divide) or of a vector (w = 0, linear part only)
 fn apply_h<F: Field>(h: H<F>, p: [F; 3], w: F) -> [F; 3] {
     let r = model::mvec(h, [p[0], p[1], p[2], w]);
-    [r[0], r[1], r[2]]
+    if w.is_zero() || r[3] == F::one() {
+        [r[0], r[1], r[2]]
+    } else {
+        [r[0] / r[3], r[1] / r[3], r[2] / r[3]]
+    }
+}
+/// bottom row (0, 0, 0, 1): no projective part
+fn affine<F: Field>(h: &H<F>) -> bool {
+    h[0][3].is_zero() && h[1][3].is_zero() && h[2][3].is_zero() && h[3][3] == F::one()
 }
 fn probes<T: Tier>(dim: usize) -> Vec<[T; 3]> {
     (0..3)
@@ -502,6 +517,9 @@ fn invariant<T: Tier, C: Cfg<T>>(ctx: &mut Ctx, s: &C::Tr, gens: &[C::Tr]) {
     ctx.out(&keys(&C::comps(s)));
     for p in &ps {
         eq_vc::<T, 3>(ctx, &key(&format!("{}/transform_point", C::NAME)), C::tp(s, *p), apply_h(hs, lift_v(*p), one), slack);
+        // directions are transformed by the linear part; for a projective matrix the image of a direction
+        // also has a w component that transform_vector drops, so composition laws on vectors are
+        // stated (and judged) for affine transforms only
         eq_vc::<T, 3>(ctx, &key(&format!("{}/transform_vector", C::NAME)), C::tv(s, *p), apply_h(hs, lift_v(*p), zero), slack);
         same_slice(ctx, &key(&format!("{}/one-is-neutral", C::NAME)), &C::tp(&C::one(), *p), p);
         same_slice(ctx, &key(&format!("{}/one-is-neutral", C::NAME)), &C::tv(&C::one(), *p), p);
@@ -563,6 +581,10 @@ fn invariant<T: Tier, C: Cfg<T>>(ctx: &mut Ctx, s: &C::Tr, gens: &[C::Tr]) {
         let want_p: [T::M; 3] = std::array::from_fn(|j| p[j].lift().with_err_of(back_p[j]));
         let want_v: [T::M; 3] = std::array::from_fn(|j| p[j].lift().with_err_of(back_v[j]));
         eq_vc::<T, 3>(ctx, &key(&format!("{}/inverse/undoes-point", C::NAME)), C::tp(&inv, fwd_p), want_p, slack * 4.0);
+        if !affine(&hs) {
+            ctx.branch("projective-vector-clauses-not-judged");
+            continue;
+        }
         eq_vc::<T, 3>(ctx, &key(&format!("{}/inverse/undoes-vector", C::NAME)), C::tv(&inv, fwd_v), want_v, slack * 4.0);
         match C::inv_tv(s, fwd_v) {
             Some(r) => {
@@ -630,7 +652,9 @@ fn system<T: Tier, C: Cfg<T>>(rep: &mut Report) {
                 eq_vc::<T, 3>(ctx, &key(&format!("{}/concat/point", C::NAME)), C::tp(&res, p), mp, slack * 4.0);
                 eq_vc::<T, 3>(ctx, &key(&format!("{}/concat/point-stepwise", C::NAME)), step_p, mp, slack * 4.0);
                 eq_vc::<T, 3>(ctx, &key(&format!("{}/concat/vector", C::NAME)), C::tv(&res, p), mv, slack * 4.0);
-                eq_vc::<T, 3>(ctx, &key(&format!("{}/concat/vector-stepwise", C::NAME)), step_v, mv, slack * 4.0);
+                if affine(&hs) && affine(&hg) {
+                    eq_vc::<T, 3>(ctx, &key(&format!("{}/concat/vector-stepwise", C::NAME)), step_v, mv, slack * 4.0);
+                }
             }
             if let (Some(ms), Some(mg), Some(mr)) = (C::to_matrix(s), C::to_matrix(g), C::to_matrix(&res)) {
                 // converting commutes with composing
